@@ -410,7 +410,10 @@ def known_mechs(pid):
     for e in findings.load(pid):
         k = e.get("key", "")
         if k.startswith("mech="):
-            out.add(k[5:].split(";")[0])
+            name = k[5:].split(";")[0]
+            if name.startswith("fold:") and "*" in name:
+                continue   # "any folded op" is too broad to switch off as one mechanism
+            out.add(name)
     return out
 
 
@@ -449,6 +452,9 @@ def attribute(model, o, passes, fired_in, known=()):
     for name in rest:
         if trial(kn + [name]):
             return name
+    if kn:
+        # no single mechanism isolates the failure, but known-defective mechanisms took part in it
+        return "unattributed+" + kn[0]
     return None
 
 
